@@ -928,6 +928,11 @@ func replay(path string) int {
 	args := []string{"-prop", v.Property, "-tier", v.Tier, "-seed", strconv.FormatInt(v.Seed, 10), "-lane", lane, "-out", outPath, "-cursor", filepath.Join(b.work, "replay.cur"), "-verbose"}
 	if fuzzArg != "" {
 		args = append(args, "-arg", fuzzArg, "-only", "0")
+	} else if h, _ := v.Extra["replay_from_shard_start"].(bool); h && v.Case >= 0 {
+		// the violation depends on what the same process did before: re-run its shard up to the case
+		sh, _ := v.Extra["shard"].(float64)
+		ns, _ := v.Extra["nshards"].(float64)
+		args = append(args, "-shard", strconv.Itoa(int(sh)), "-nshards", strconv.Itoa(int(ns)), "-cases", strconv.Itoa(v.Case+1))
 	} else if v.Case >= 0 {
 		args = append(args, "-only", strconv.Itoa(v.Case))
 	} else {
